@@ -281,9 +281,13 @@ func showVal(v Value) string {
 	return fmt.Sprintf("%T", v)
 }
 
+var fpVals = map[*Term]float64{}
+
 // FP helpers (float64 only)
 func FPConst(f float64) *Term {
-	return TS.intern(&Term{op: "fpconst", sort: FPSort, name: fmt.Sprintf("((_ to_fp 11 53) RNE %s)", fpLit(f))})
+	t := TS.intern(&Term{op: "fpconst", sort: FPSort, name: fmt.Sprintf("((_ to_fp 11 53) RNE %s)", fpLit(f))})
+	fpVals[t] = f
+	return t
 }
 
 func fpLit(f float64) string {
